@@ -2327,7 +2327,7 @@ static int record(const std::string &out, long n, const std::string &filter, boo
                 // "within the space bounds for every t in [0,1]": also at parameters that are no dyadic fractions (a blend
                 // written as a convex combination rounds differently there, one ulp past a bound both states sit on)
                 bool inbS = nd.sp->satisfiesBounds(ps());
-                for (double tx : {0.059, 0.3, 0.77, rng.unit(), rng.unit(), rng.unit()})
+                for (double tx : {0.059, 0.3, 0.77, 0.2, 0.19, 0.013, rng.unit()})
                 {
                     nd.sp->interpolate(a(), b(), tx, pq());
                     inbS = inbS && nd.sp->satisfiesBounds(pq());
